@@ -1244,6 +1244,7 @@ func (e *Engine) unop(fr *Frame, st *State, reach Term, x *ssa.UnOp) Val {
 		e.lockCheck(st, reach, a, false)
 		out := e.load(st, a)
 		e.noteOwned(st, a, out)
+		e.noteGlobalVal(a, out)
 		// references loaded from outside are not our unescaped local objects
 		if a.Kind != aCell {
 			for i, l := range Layout(out.T) {
